@@ -182,7 +182,7 @@ func (SMRespEngine) Decode(raw json.RawMessage) (any, error) {
 	return c, err
 }
 
-var respAttacks = []string{"naked-then-stale", "mac-short", "forged-short-mac", "naked-replay", "status-both", "splice-do87", "mac-tail", "bitflip", "bytesub", "truncate", "do_drop", "do_dup", "do_reorder", "do_nonminimal_len", "sw_mismatch",
+var respAttacks = []string{"naked-then-stale", "extra-do", "mac-short", "forged-short-mac", "naked-replay", "status-both", "splice-do87", "mac-tail", "bitflip", "bytesub", "truncate", "do_drop", "do_dup", "do_reorder", "do_nonminimal_len", "sw_mismatch",
 	"replay", "future", "cross_session", "plaintext", "bare_status", "random", "append", "wrong_ssc_rewrap", "strip_mac", "empty"}
 
 func (SMRespEngine) Gen(prop, tier string, seed uint64, yield func(c any) bool) {
@@ -484,6 +484,67 @@ func (SMRespEngine) Run(prop string, ci any) *core.Outcome {
 			forged = append(forged, chip.EncTLV(0x99, []byte{byte(ns >> 8), byte(ns)})...)
 			forged = append(forged, chip.EncTLV(0x8E, attackRng.Bytes(c.B%4))...)
 			forged = append(forged, byte(ns>>8), byte(ns))
+		case "extra-do":
+			// a well-formed additional data object with a tag that is already present (or another SM tag), carrying
+			// different content, placed after / before / between the genuine objects
+			ts, err := chip.ParseTLVs(g[:len(g)-2])
+			if err != nil {
+				return genuine
+			}
+			var donor []byte
+			for j := k - 1; j >= 0 && donor == nil; j-- {
+				if ds, err := chip.ParseTLVs(card.genuine[j][:len(card.genuine[j])-2]); err == nil {
+					for _, t := range ds {
+						if t.Tag == 0x87 || t.Tag == 0x85 {
+							donor = t.Raw
+						}
+					}
+				}
+			}
+			ns := swSet[c.B%len(swSet)]
+			if ns == script[k].sw {
+				ns ^= 0x0300
+			}
+			outer := g[len(g)-2:]
+			var extra []byte
+			switch c.A % 7 {
+			case 0:
+				if donor == nil {
+					return genuine
+				}
+				extra = donor
+			case 1:
+				blk := 16
+				if c.Suite == chip.TDES {
+					blk = 8
+				}
+				extra = chip.EncTLV(0x87, append([]byte{0x01}, attackRng.Bytes(blk*(1+c.B%3))...))
+			case 2:
+				extra = chip.EncTLV(0x99, []byte{byte(ns >> 8), byte(ns)})
+				outer = []byte{byte(ns >> 8), byte(ns)}
+			case 3:
+				extra = chip.EncTLV(0x99, []byte{byte(ns >> 8), byte(ns)})
+			case 4:
+				extra = chip.EncTLV(0x8E, attackRng.Bytes(8))
+			case 5:
+				extra = chip.EncTLV(0x85, attackRng.Bytes(16))
+			case 6:
+				extra = chip.EncTLV(0x81, attackRng.Bytes(1+c.B%20))
+			}
+			pos := (c.A / 7) % 3 // 0 after everything, 1 in front, 2 just before the MAC object
+			for i, t := range ts {
+				if pos == 1 && i == 0 {
+					forged = append(forged, extra...)
+				}
+				if pos == 2 && t.Tag == 0x8E {
+					forged = append(forged, extra...)
+				}
+				forged = append(forged, t.Raw...)
+			}
+			if pos == 0 {
+				forged = append(forged, extra...)
+			}
+			forged = append(forged, outer...)
 		case "mac-tail":
 			// only the last bytes of the MAC object altered
 			if len(g) < 6 {
